@@ -175,3 +175,55 @@ Lemma forall_nth_error {A} (Q : A -> Prop) (l : list A) : Forall Q l -> forall n
 Proof.
   intros H n x E. apply nth_error_In in E. revert x E. apply Forall_forall. exact H.
 Qed.
+
+(* ---- T13: serializer ties (`src_gen_x args = gen_x args` over the `ser` monad) ---- *)
+From TlsModel Require Import Serialize SerExtra SerConsts.
+Lemma be_enc_mod_pow k v : be_enc k (v mod 256 ^ N.of_nat k) = be_enc k v.
+Proof.
+  revert v; induction k as [|k IH]; intro v; [reflexivity|].
+  cbn [be_enc]. rewrite Nnat.Nat2N.inj_succ, N.pow_succ_r by lia.
+  assert (H256 : 256 ^ N.of_nat k <> 0) by (apply N.pow_nonzero; lia).
+  rewrite N.mod_mul_r by lia.
+  set (X := (v / 256) mod 256 ^ N.of_nat k).
+  replace (v mod 256 + 256 * X) with (X * 256 + v mod 256) by lia.
+  f_equal.
+  - rewrite N.div_add_l by lia. rewrite (N.div_small (v mod 256) 256) by (apply N.mod_lt; lia).
+    rewrite N.add_0_r. unfold X. apply IH.
+  - unfold n2b. rewrite N.add_comm, N.mod_add by lia. rewrite N.mod_mod by lia. reflexivity.
+Qed.
+Lemma u8_mod v : u8 (v mod 256) = u8 v.
+Proof. exact (be_enc_mod_pow 1 v). Qed.
+Lemma u16_mod v : u16 (v mod 65536) = u16 v.
+Proof. exact (be_enc_mod_pow 2 v). Qed.
+Lemma u24_mod v : u24 (v mod 16777216) = u24 v.
+Proof. exact (be_enc_mod_pow 3 v). Qed.
+Lemma sall_map_ok {A} (f : A -> list byte) l : sall (map (fun x => SerOk (f x)) l) = SerOk (concat (map f l)).
+Proof. induction l as [|a l IH]; [reflexivity|]. cbn [map sall concat]. rewrite IH. reflexivity. Qed.
+
+Ltac ser_norm :=
+  cbn [sall scat sbind map concat fst snd]; rewrite ?sall_map_ok; cbn [sall scat sbind];
+  rewrite ?u8_mod, ?u16_mod, ?u24_mod; try rewrite <- !app_assoc; cbn [app]; rewrite ?app_nil_r.
+Ltac ser_atomic s :=
+  lazymatch s with
+  | sbind _ _ => fail | scat _ _ => fail | SerOk _ => fail | SerNYI => fail | SerPanic => fail
+  | (if _ then _ else _) => fail | (match _ with _ => _ end) => fail
+  | _ => idtac
+  end.
+Ltac ser_tie :=
+  cbv [gen_tls_ext_sni gen_tls_ext_max_fragment_length gen_tls_named_group gen_tls_ext_elliptic_curves gen_tls_sessionid_ser
+       maybe_extensions_ser gen_tls_clientkeyexchange_unknown gen_tls_clientkeyexchange_dh gen_tls_clientkeyexchange_ecdh
+       gen_tls_hellorequest gen_tls_finished gen_tls_changecipherspec tagged_extension length_be_u16 length_be_u24
+       gen_tls_sessionid maybe_extensions gen_tls_ext_sni_hostname g_id
+       ser_ccs_byte ser_ty_clienthello ser_ty_serverhello ser_ty_serverhello13 ser_ty_cke_unknown ser_ty_cke_dh ser_ty_cke_ecdh
+       ser_ty_hellorequest ser_ty_finished ser_tag_sni ser_tag_mfl ser_tag_groups];
+  repeat match goal with
+         | |- context [match ?x with _ => _ end] => is_var x; destruct x
+         end;
+  ser_norm;
+  try reflexivity;
+  repeat (match goal with
+          | |- context [if ?b then _ else _] => destruct b eqn:?
+          | |- context [sbind ?s _] => ser_atomic s; destruct s
+          | |- context [scat ?s _] => ser_atomic s; destruct s
+          | |- context [scat _ ?s] => ser_atomic s; destruct s
+          end; ser_norm; try reflexivity; try congruence).
